@@ -33,17 +33,41 @@ def step (t : List String) : String :=
         (fnOf 0.0 xhf.toArray) (fnOf 0.0 xlf.toArray) (fnOf 0.0 phf.toArray)
       "ok " ++ showList ((List.range nc).map lab)
     | _, _, _, _, _, _, _, _ => "bad-op"
-  -- mode nb nc labels(row-major nb*nc: batch after batch)
-  | ["mode", nb, nc, labels] =>
-    match nat? nb, nat? nc, natList? labels with
-    | some nb, some nc, some labels =>
+  -- mode nb ncTotal nsync labels(row-major nb*(ncTotal-nsync): batch after batch)
+  | ["mode", nb, nct, nsync, labels] =>
+    match nat? nb, nat? nct, nat? nsync, natList? labels with
+    | some nb, some nct, some nsync, some labels =>
+      let nc := analysedChannels nct nsync
       if labels.length ≠ nb * nc then "err shape" else
       let la := labels.toArray
       let batches : List (Nat → Nat) := (List.range nb).map fun b => fun c => la.getD (b * nc + c) 0
-      match (List.range nc).mapM (fileLabels batches) with
+      match fileLabelVector nct nsync batches with
       | some l => "ok " ++ showList l
       | none => "err empty"
-    | _, _, _ => "bad-op"
+    | _, _, _, _ => "bad-op"
+  -- donors np1|np2 nc labels : for every bad channel (increasing) its donors with the default parameters
+  | ["donors", kind, nc, labels] =>
+    match nat? nc, natList? labels with
+    | some nc, some labels =>
+      if labels.length ≠ nc then "err shape" else
+      let site := if kind = "np1" then np1Site else np2Site
+      let lab := fnOf 0 labels.toArray
+      let rows := (badChannels nc lab).map fun c =>
+        s!"{c}:" ++ (let d := latticeDonors site nc lab c; if d.isEmpty then "-" else ",".intercalate (d.map toString))
+      "ok " ++ (if rows.isEmpty then "-" else ";".intercalate rows)
+    | _, _ => "bad-op"
+  -- sites np1|np2 nc : the lattice coordinates the donor rule is stated on
+  | ["sites", kind, nc] =>
+    match nat? nc with
+    | some nc =>
+      let site := if kind = "np1" then np1Site else np2Site
+      "ok " ++ showPairs ((List.range nc).map site)
+    | none => "bad-op"
+  -- detrend nmed x
+  | ["detrend", nmed, x] =>
+    match nat? nmed, f64List? x with
+    | some nmed, some x => "ok " ++ showF64s (detrend x nmed)
+    | _, _ => "bad-op"
   -- slices ns fs dur nb
   | ["slices", ns, fs, dur, nb] =>
     match nat? ns, f64? fs, f64? dur, nat? nb with
